@@ -1,0 +1,10 @@
+//go:build verif
+
+// Contracts for package fingerprint, read by /verif/bin/gvc (contract-based deductive verification).
+// This file contains comments only; it is compiled only under the build tag "verif".
+package fingerprint
+
+//@ func Globs
+//@   sweep                                                          [C16]
+//@ func collectKeys
+//@   sweep                                                          [C16]
